@@ -366,7 +366,30 @@ func (w *storeWorld) doPut(op *storeOp) {
 	}
 	m.uploads = append(m.uploads, u)
 	w.c.Logf("g%d invoke %s valid=%v", w.s.Cur().ID, op, u.Valid)
+	// a fifth of the streamed uploads arrive as one half of a stream clone
+	// whose other half is discarded or drained by a sibling goroutine (what
+	// mirroring and replicating decorators hand to a backend)
+	siblingDone := true
+	if !m.cfg.AC && op.Ctor != ctorSlice && (op.PutArg+op.Pad)%5 == 0 {
+		b1, b2 := b.CloneStream()
+		b = b1
+		siblingDone = false
+		parks, drain := op.Pad%4, op.PutArg%2 == 0
+		w.s.Go("upload-sibling", func() {
+			defer func() { siblingDone = true }()
+			for i := 0; i < parks; i++ {
+				rt.Yield("sibling")
+			}
+			if drain {
+				b2.IntoWriter(io.Discard)
+			} else {
+				b2.Discard()
+			}
+		})
+		w.c.Count("probe_upload_via_stream_clone", 1)
+	}
 	err := w.e.ba.Put(w.ctx, d, b)
+	w.s.WaitUntil("upload sibling", func() bool { return siblingDone })
 	u.Return = w.seq()
 	if err == nil {
 		u.Status = upSucceeded
